@@ -102,17 +102,23 @@ def _log_of(o):
     return []
 
 
-def cpython_found_unbound_first(exp, got):
-    """is the first point where the two observations part one where CPython found a variable unbound (raised
-    UnboundLocalError/NameError there, or logged it through a guarded read/del) while the compiled code went on?"""
+def mentions_unbound(exp):
+    """does CPython's observation involve an unbound variable at all (raised UnboundLocalError/NameError, or logged one
+    through a guarded read/del)?"""
+    if exp[0] == 'exc' and exp[1] in ('UnboundLocalError', 'NameError'):
+        return True
+    return any(e[0] == 'tuple' and e[1] and e[1][0] in (['str', "'unb'"], ['str', "'del'"]) for e in _log_of(exp))
+
+
+def first_divergence(exp, got):
+    """kind of the first log entry at which the two observations part: 'read' / 'del' (CPython logged an unbound
+    read / del there) or None"""
     le, lg = _log_of(exp), _log_of(got)
     i = 0
     while i < len(le) and i < len(lg) and le[i] == lg[i]:
         i += 1
-    if i == len(le):
-        # CPython's log ends here: it must have raised the unbound error at this point (an unguarded read)
-        ok = exp[0] == 'exc' and exp[1] in ('UnboundLocalError', 'NameError') and (len(lg) > i or got[0] == 'ok' or got[:2] != exp[:2])
-        return 'read' if ok else None
+    if i >= len(le):
+        return None
     e = le[i]
     if e[0] == 'tuple' and e[1] and e[1][0] == ['str', "'unb'"]:
         return 'read'
@@ -128,8 +134,8 @@ def outcome_class(o):
 def main(ck):
     tree = cy.Tree('C21')
     rng = ck.rng('flow')
-    nfuncs = ck.pick(200, 3000)
-    per_mod = ck.pick(50, 150)
+    nfuncs = ck.pick(128, 3000)
+    per_mod = ck.pick(16, 100)
     mods = {}
     fmap = {}
     stats = {'calls': 0, 'calls_raising_nameerror': 0, 'reads': 0, 'unbound_reads': 0}
@@ -178,6 +184,7 @@ def main(ck):
     hist = {}
     nmis = {'default': 0, 'lenient': 0}
     ablation_gone = ablation_same = 0
+    pending = []       # (cfg, module, DiffResult)
     for cfg, d, info, fsel in (('default', dd, idf, default_funcs), ('lenient', dl, il, {n: f for n, (s, f) in mods.items()})):
         for n, inf in info.items():
             if not inf['ok']:
@@ -194,61 +201,79 @@ def main(ck):
             samples.extend(res.samples[:1])
             for k, v in res.hist.items():
                 hist[k] = hist.get(k, 0) + v
-            # ablation: the same cases on the infer_types=False build of the same source
-            abl = {}
-            mis_cases = [m['case'] for m in res.mismatches] + [c['case'] for c in res.crashes if not c['kind'].startswith('HANG')]
-            if mis_cases:
-                # ablation build: only the functions that showed a discrepancy, compiled with infer_types=False
-                names_mis = sorted({c['f'] for c in mis_cases}, key=lambda x: int(x[2:-1]))
-                an = 'abl_%s_%s' % (cfg, n)
-                asrc = flowgen.module_source([fmap[x][1] for x in names_mis])
-                da, ia = build(tree, {an: asrc}, an, directives={'infer_types': False},
-                               global_options={'error_on_uninitialized': False})
-                if ia[an]['ok']:
-                    r2 = diff.run_cases(tree, da, an, mis_cases, ref=ia[an]['src'], compare=COMPARE,
-                                        tagdir='ablrun_%s_%s' % (cfg, n), timeout=3600, nproc=2)
-                    bad2 = {(m['case']['f'], m['case']['a']) for m in r2.mismatches} | \
-                           {(c['case']['f'], c['case']['a']) for c in r2.crashes}
-                    for c in mis_cases:
-                        abl[(c['f'], c['a'])] = 'same' if (c['f'], c['a']) in bad2 else 'gone'
-                else:
-                    ck.note('ablation build failed for %s/%s: %s' % (cfg, n, ia[an]['errors'][-400:]))
-            for m in res.mismatches:
-                nmis[cfg] += 1
-                f = fmap[m['case']['f']][1]
-                a = abl.get((m['case']['f'], m['case']['a']), 'unknown')
-                ablation_gone += a == 'gone'
-                ablation_same += a == 'same'
-                ec, gc = outcome_class(m['exp']), outcome_class(m['got'])
-                first = cpython_found_unbound_first(m['exp'], m['got'])
-                if a == 'gone' and first:
-                    # CPython found a variable unbound (raised, or logged it through a guarded read); the compiled
-                    # function went on with a value; goes away without type inference
-                    key = 'unbound-read-of-C-inferred-local'
-                elif first == 'del' and cfg == 'lenient' and f['name'] in excluded:
-                    # CPython raised at a `del v` that the compiler knows to be definitely unbound (the function is a
-                    # compile error in default mode); lenient mode generates no code at all for that del
-                    key = 'del-of-definitely-unbound-local-is-noop'
-                else:
-                    key = 'unbound:%s->%s:ablation-%s' % (ec, gc, a)
-                ck.discrepancy(key, '%s(%s) [%s mode]: CPython %s, compiled %s; with infer_types=False the discrepancy is %s'
-                               % (f['name'], m['case']['a'], cfg, str(m['exp'])[:200], str(m['got'])[:200], a),
-                               {'function_source': flowgen.HEADER + f['src'], 'ext': '.py', 'case': m['case'],
-                                'compare': COMPARE, 'cflags': [], 'directives': {}, 'mode': cfg,
-                                'global_options': {} if cfg == 'default' else {'error_on_uninitialized': False},
-                                'expected': m['exp'], 'observed': m['got'], 'ablation_infer_types_false': a,
-                                'profile': f['profile']})
-            for c in res.crashes:
-                f = fmap[c['case']['f']][1]
-                if c['kind'].startswith('HANG'):
-                    ck.inconclusive_if(True, 'watchdog fired on %s%s' % (f['name'], c['case']['a']))
-                    continue
-                a = abl.get((c['case']['f'], c['case']['a']), 'unknown')
-                ck.discrepancy('crash:ablation-%s' % a, 'crash %s in %s%s [%s mode]' % (c['kind'], f['name'], c['case']['a'], cfg),
-                               {'function_source': flowgen.HEADER + f['src'], 'ext': '.py', 'case': c['case'], 'mode': cfg,
-                                'stderr': c['stderr']})
+            pending.append((cfg, n, res))
             for ft in res.fatal:
                 ck.inconclusive_if(True, 'driver failed for %s/%s: %s' % (cfg, n, str(ft)[-300:]))
+    # ablation: every function that showed a discrepancy, compiled with infer_types=False (lenient), in one batch
+    mis_funcs = sorted({m['case']['f'] for _, _, res in pending for m in res.mismatches} |
+                       {c['case']['f'] for _, _, res in pending for c in res.crashes if not c['kind'].startswith('HANG')},
+                       key=lambda x: int(x[2:-1]))
+    abl_obs = {}       # (function, args) -> observation of the ablation build ('same-as-cpython' if it agrees)
+    if mis_funcs:
+        per = max(10, (len(mis_funcs) + 7) // 8)
+        asrcs = {}
+        for i in range(0, len(mis_funcs), per):
+            asrcs['c21abl%d' % (i // per)] = mis_funcs[i:i + per]
+        da, ia = build(tree, {an: flowgen.module_source([fmap[x][1] for x in names]) for an, anames in asrcs.items()}, 'abl',
+                       directives={'infer_types': False}, global_options={'error_on_uninitialized': False})
+        for an, anames in asrcs.items():
+            if not ia[an]['ok']:
+                ck.note('ablation build failed for %s: %s' % (an, ia[an]['errors'][-400:]))
+                continue
+            nameset = set(anames)
+            acases = []
+            seen = set()
+            for _, _, res in pending:
+                for c in [m['case'] for m in res.mismatches] + [c['case'] for c in res.crashes]:
+                    if c['f'] in nameset and (c['f'], c['a']) not in seen:
+                        seen.add((c['f'], c['a']))
+                        acases.append(c)
+            r2 = diff.run_cases(tree, da, an, acases, ref=ia[an]['src'], compare=COMPARE, tagdir='ablrun_' + an,
+                                timeout=3600, nproc=4)
+            for c in acases:
+                abl_obs[(c['f'], c['a'])] = 'agrees'
+            for m in r2.mismatches:
+                abl_obs[(m['case']['f'], m['case']['a'])] = m['got']
+            for c in r2.crashes:
+                abl_obs[(c['case']['f'], c['case']['a'])] = ['crash']
+    for cfg, n, res in pending:
+        for m in res.mismatches:
+            nmis[cfg] += 1
+            f = fmap[m['case']['f']][1]
+            got2 = abl_obs.get((m['case']['f'], m['case']['a']), 'unknown')
+            a = 'gone' if got2 == 'agrees' else 'unknown' if got2 == 'unknown' else 'same'
+            ablation_gone += a == 'gone'
+            ablation_same += a == 'same'
+            ec, gc = outcome_class(m['exp']), outcome_class(m['got'])
+            if a == 'gone' and mentions_unbound(m['exp']):
+                # CPython found a variable unbound (raised, or logged it through a guarded read); the compiled function went
+                # on with a value; the whole discrepancy disappears without type inference
+                key = 'unbound-read-of-C-inferred-local'
+            elif a == 'same' and cfg == 'lenient' and f['name'] in excluded and isinstance(got2, list) and \
+                    first_divergence(m['exp'], got2) == 'del':
+                # what remains without type inference starts at a `del v` of a definitely unbound variable (the function
+                # is a compile error in default mode): lenient mode generates no code at all for that del
+                key = 'del-of-definitely-unbound-local-is-noop'
+            else:
+                key = 'unbound:%s->%s:ablation-%s' % (ec, gc, a)
+            ck.discrepancy(key, '%s(%s) [%s mode]: CPython %s, compiled %s; with infer_types=False the discrepancy is %s'
+                           % (f['name'], m['case']['a'], cfg, str(m['exp'])[:200], str(m['got'])[:200], a),
+                           {'function_source': flowgen.HEADER + f['src'], 'ext': '.py', 'case': m['case'],
+                            'compare': COMPARE, 'cflags': [], 'directives': {}, 'mode': cfg,
+                            'global_options': {} if cfg == 'default' else {'error_on_uninitialized': False},
+                            'expected': m['exp'], 'observed': m['got'], 'ablation_infer_types_false': a,
+                            'observed_infer_types_false': got2, 'profile': f['profile']})
+        for c in res.crashes:
+            f = fmap[c['case']['f']][1]
+            if c['kind'].startswith('HANG'):
+                ck.inconclusive_if(True, 'watchdog fired on %s%s' % (f['name'], c['case']['a']))
+                continue
+            got2 = abl_obs.get((c['case']['f'], c['case']['a']), 'unknown')
+            a = 'gone' if got2 == 'agrees' else 'unknown' if got2 == 'unknown' else 'same'
+            ck.discrepancy('crash:ablation-%s' % a, 'crash %s in %s%s [%s mode]' % (c['kind'], f['name'], c['case']['a'], cfg),
+                           {'function_source': flowgen.HEADER + f['src'], 'ext': '.py', 'case': c['case'], 'mode': cfg,
+                            'global_options': {} if cfg == 'default' else {'error_on_uninitialized': False},
+                            'stderr': c['stderr']})
     # ---------------------------------------------------------------- reach
     frac = stats['unbound_reads'] / max(1, stats['reads'])
     ck.inconclusive_if(not (0.05 <= frac <= 0.60), 'fraction of reads CPython finds unbound is %.3f (outside 5-60%%)' % frac)
